@@ -265,9 +265,18 @@ def c01(prop, tier):
 
 @check("C18")
 def c18(prop, tier):
-    return case_check(prop, tier, "Ingress.tla", "Ingress.cfg",
-                      ["ingress", "-limits", "-cases", "{cases}", "-tier", "{tier}", "-seed", "{seed}"],
-                      "13 write paths x max_blob_size in {size-1, size, size+1}", CASE_ASSUME)
+    models = [
+        ("Ingress/limits", "Ingress.tla", "Ingress.cfg", "13 write paths x max_blob_size in {size-1, size, size+1}: over-limit uploads refused with a client error and nothing stored, uploads of exactly the limit accepted", "ing"),
+        ("Limits", "Limits.tla", "Limits.cfg", "11 paths that can reach the backend x object size in {limit-1, limit, limit+1, 10 x limit}: pre-check on the stated size plus post-check on the size the backend reports decide exactly 'served / present iff size <= max_proxy_blob_size'; an oversize object is not even fetched when the caller states the size", "lim"),
+    ]
+    drivers = [
+        ("ingress-limits", ["ingress", "-limits", "-cases", "{ing}", "-tier", "{tier}", "-seed", "{seed}"]),
+        ("limits", ["limits", "-cases", "{lim}", "-seed", "{seed}"]),
+    ]
+    return multi_check(prop, tier, models, drivers,
+                       CASE_ASSUME + ["backend-read paths run over an in-memory backend that holds the object and nothing else does; limits 5000 and 1 MiB; action results are padded to the exact byte size",
+                                      "GetCapabilities is compared with the configured max_blob_size for four values, and the advertised value is the one enforced (limit accepted, limit+1 refused)"],
+                       "tlc Ingress.tla + Limits.tla + vh ingress -limits / limits")
 
 
 @check("C10")
